@@ -180,7 +180,7 @@ func makePlan(rng *rand.Rand) *plan {
 	p.N = 3 + rng.Intn(5)
 	p.K = ceilDiv(2*p.N, 3)
 	p.F = (p.N - 1) / 3
-	p.NumVals = 1 + rng.Intn(3)
+	p.NumVals = []int{1, 2, 2, 3, 3}[rng.Intn(5)]
 	p.Electra = rng.Intn(2) == 0
 	if p.Electra {
 		p.attVersion = eth2spec.DataVersionElectra
